@@ -131,6 +131,9 @@ func solveOne(o *Obligation, goal, suffix, workDir string, secs int, all bool) O
 	if o.Cover && secs > 3 {
 		secs = 3
 	}
+	if o.Advisory {
+		secs = 2
+	}
 	script := o.scriptFor(false, false, goal)
 	file := filepath.Join(workDir, safeFile(o.Name)+suffix+".smt2")
 	os.MkdirAll(workDir, 0o755)
